@@ -54,14 +54,18 @@ template<class T> struct TInfo;
 template<> struct TInfo<double> { static const char* name() { return "f64"; } static double tol() { return 1e-12; } };
 template<> struct TInfo<float>  { static const char* name() { return "f32"; } static double tol() { return 2e-5; } };
 
-// point grids. gridset 0: four points with equal kernel values between some pairs (ties in the discrepancy sum, and
+// point grids. gridset 2: four points so far apart that the Gaussian kernel between two different ones is exactly 0 (every
+// discrepancy sum is a tie at 0). gridset 0: four points with equal kernel values between some pairs (ties in the discrepancy sum, and
 // duplicates give K = 1 ties); gridset 1: up to seven points in general position (all pairwise distances distinct).
 static std::vector<double> grid_point(int gridset, uint32_t dim, int i) {
   static const double g0d1[4] = {0, 1, 2, 3.5};
   static const double g0d2[4][2] = {{0, 0}, {1, 0}, {0, 1}, {1.5, 2}};
   static const double g1d1[7] = {0, 0.7, 1.9, 3.3, 4.2, 5.95, 7.05};
   static const double g1d2[7][2] = {{0, 0}, {0.7, 0.1}, {0.2, 1.3}, {1.9, 0.9}, {2.3, 2.45}, {0.85, 2.9}, {3.1, 0.35}};
+  static const double g2d1[4] = {0, 1000, 2000, 3000};
+  static const double g2d2[4][2] = {{0, 0}, {1000, 0}, {0, 1000}, {1000, 1000}};
   std::vector<double> p(dim, 0.25 * (i + 1));     // any other dimension: filler values
+  if (gridset == 2) { if (dim == 1) p[0] = g2d1[i]; if (dim == 2) { p[0] = g2d2[i][0]; p[1] = g2d2[i][1]; } return p; }
   if (dim == 1) p[0] = gridset ? g1d1[i] : g0d1[i];
   if (dim == 2) { p[0] = gridset ? g1d2[i][0] : g0d2[i][0]; p[1] = gridset ? g1d2[i][1] : g0d2[i][1]; }
   return p;
@@ -164,7 +168,7 @@ struct DenSys {
     if (d == dim && (size_t)i < pts_cache.size()) return pts_cache[(size_t)i];
     return cast_point<T>(grid_point(gridset, d, i));
   }
-  void init_cache() { pts_cache.clear(); for (int i = 0; i < (gridset ? 7 : 4); ++i) pts_cache.push_back(cast_point<T>(grid_point(gridset, dim, i))); }
+  void init_cache() { pts_cache.clear(); for (int i = 0; i < (gridset == 1 ? 7 : 4); ++i) pts_cache.push_back(cast_point<T>(grid_point(gridset, dim, i))); }
 
   State* make() {
     ++runs_since_ctx;
@@ -309,6 +313,8 @@ struct DenSys {
     }
     std::unique_ptr<Sk> B = build(o);
     if (counted && (int)(B->get_num_retained() + s.sk->get_num_retained()) > Rmax) return false;
+    // the big-k operand holds a single uncompacted level: the level the merge result compacts must stay within 6 points
+    if (counted && o.label[0] == 'B' && B->get_num_retained() + s.sk->get_num_retained() > 6) return false;
     const std::string cb = sk_canon(*B), ca = sk_canon(*s.sk);
     const uint64_t nb = B->get_n(), na = s.sk->get_n();
     if (!is_wrong) {
@@ -398,7 +404,7 @@ struct DenSys {
       std::vector<uint32_t> have(s.cnt.size(), 0); bool member = true; std::string mm;
       for (size_t i = 0; i < seen.size(); ++i) {
         int g = -1;
-        for (size_t j = 0; j < s.cnt.size() && j < (size_t)std::max(P, 7); ++j) if ((gridset || j < 4) && seen[i].first == point(dim, (int)j)) { g = (int)j; break; }
+        for (size_t j = 0; j < s.cnt.size() && j < (size_t)std::max(P, 7); ++j) if ((gridset == 1 || j < 4) && seen[i].first == point(dim, (int)j)) { g = (int)j; break; }
         if (g < 0 || s.cnt[(size_t)g] == 0) { member = false; mm = "retained point #" + str(i) + " is not an input"; } else have[(size_t)g]++;
       }
       c.ok("retained-point-is-an-input", member, mm);
@@ -560,7 +566,7 @@ static void e3_expectation(Sys sys, const std::vector<size_t>& ops, Report& rep,
     cnt = s->cnt; n = s->n;
     for (typename Sys::Sk::const_iterator it = s->sk->begin(); it != s->sk->end(); ++it) {
       etot += d[li].prob * (double)(*it).second;
-      for (int g = 0; g < 7; ++g) if ((sys.gridset || g < 4) && std::vector<double>((*it).first.begin(), (*it).first.end()) == grid_point(sys.gridset, sys.dim, g)) ew[(size_t)g] += d[li].prob * (double)(*it).second;
+      for (int g = 0; g < 7; ++g) if ((sys.gridset == 1 || g < 4) && std::vector<double>((*it).first.begin(), (*it).first.end()) == grid_point(sys.gridset, sys.dim, g)) ew[(size_t)g] += d[li].prob * (double)(*it).second;
     }
   }
   pt.account();
@@ -596,7 +602,12 @@ static DenSys<T, Kern> make_sys(const Scn& sc, unsigned setup_grid) {
     for (int i = 0; i < sc.k + 1; ++i) comp.push_back(i % 2 ? (P - 1) : (i / 2) % P == P - 1 ? 0 : (i / 2) % P);   // duplicates keep the number of distinct outcomes small
     const int ok = sc.k == 2 ? 3 : 2;
     for (int i = 0; i < ok + 1; ++i) other.push_back((P - 1 - i % P + P) % P);
-    const std::string kinds = sc.ops && *sc.ops ? sc.ops : "EUCD";
+    // B: an operand of a much larger k that holds 2k (k = 2) or k+1 points in a single level (never compacted; the level
+    // the receiver then compacts must stay within 6 points, the size up to which shuffle outcomes are enumerated): absorbing it, an (almost) empty
+    // receiver of size k must compact at once
+    std::vector<int> big; for (int i = 0; i < (sc.k == 2 ? 4 : sc.k + 1); ++i) big.push_back((i * 2 + i / P) % P);
+    const std::string kinds = sc.ops && *sc.ops ? sc.ops : "EUCDB";
+    if (kinds.find('B') != std::string::npos) sys.add_operand_outcomes(sys.menu, "B" + str(4 * sc.k), (uint16_t)(4 * sc.k), (uint32_t)sc.dim, big, setup_grid, 1);
     if (kinds.find('E') != std::string::npos) sys.add_operand_outcomes(sys.menu, "E", (uint16_t)sc.k, (uint32_t)sc.dim, none, setup_grid, 1);
     if (kinds.find('U') != std::string::npos) sys.add_operand_outcomes(sys.menu, "U", (uint16_t)sc.k, (uint32_t)sc.dim, under, setup_grid, 1);
     if (kinds.find('C') != std::string::npos) sys.add_operand_outcomes(sys.menu, "C", (uint16_t)sc.k, (uint32_t)sc.dim, comp, setup_grid, sc.max_outcomes);
@@ -677,6 +688,8 @@ int main(int argc, char** argv) {
       {4, 1, 0, 0, 2, 10, 0, 0, 0, 2}, {4, 2, 1, 0, 2, 10, 0, 0, 0, 2}, {4, 1, 1, 0, 3, 7, 0, 0, 0, 2},
       {4, 2, 0, 0, 2, 5, 1, 2, 2, 2},
       {2, 1, 2, 0, 3, 6, 0, 0, 0, 1},
+      // far-apart points (kernel exactly 0 between different points): a compaction may keep nothing at all
+      {2, 1, 0, 2, 3, 6, 0, 0, 0, 1}, {2, 2, 0, 2, 2, 4, 1, 3, 2, 2}, {3, 1, 0, 2, 2, 7, 0, 0, 0, 2},
       // deep merge: five forced updates, then the different-k operand in all three forms (a merge that needs two compactions)
       {3, 1, 0, 0, 2, 5, 1, 5, 2, 2, "01000", "D"},
     };
@@ -710,6 +723,8 @@ int main(int argc, char** argv) {
       {4, 2, 1, 0, 2, 10, 0, 0, 0, 2},
       // float
       {2, 1, 2, 0, 4, 7, 0, 0, 0, 1}, {3, 2, 2, 0, 2, 9, 0, 0, 0, 2},
+      // far-apart points (kernel exactly 0 between different points)
+      {2, 1, 0, 2, 4, 7, 0, 0, 0, 1}, {2, 2, 0, 2, 3, 5, 1, 3, 99, 2}, {3, 1, 0, 2, 3, 8, 0, 0, 0, 2}, {3, 2, 0, 2, 2, 5, 1, 4, 99, 2}, {4, 1, 0, 2, 2, 10, 0, 0, 0, 2},
     };
     scns.assign(s, s + sizeof s / sizeof s[0]);
   }
